@@ -183,6 +183,8 @@ def rule_pairing(ctx):
     ctx.ob("Collocator._process_caller.flat", ok, "%s" % (norm(ms[0].value) if ms else None), "[[match[0], secondary] for match in matches for secondary in match[1]] (primary-major)", node=ms[0] if ms else f.node, func=f)
     a = ctx.func(FILESET, "FileSet.align")
     outer = [st for st in walk_no_nested(a.node) if isinstance(st, ast.For) and calls_in(st.iter, "enumerate")]
+    if not outer:
+        raise AnalysisError("align: loop over enumerate(primary_loader) not found")
     oka = False
     if outer:
         op = outer[0]
